@@ -32,16 +32,18 @@ bvars == <<ax, bx, cx, fa, fb, fc, pc, tu, tfu>>
 
 BInit == ax = 0 /\ bx = 0 /\ cx = 0 /\ fa = 0 /\ fb = 0 /\ fc = 0 /\ pc = "a" /\ tu = 0 /\ tfu = 0
 
+\* (position tests in linear form: the code multiplies two differences and looks at the sign, which is the same thing)
 Dir == IF cx > bx THEN 1 ELSE -1
-BeyondC(u) == (u - cx) * Dir > 0
-Between(u) == (bx - u) * (u - cx) > 0
+Further(u, p) == IF cx > bx THEN u > p ELSE u < p          \* u lies beyond p in the direction of the search
+BeyondC(u) == Further(u, cx)
+Between(u) == (bx < u /\ u < cx) \/ (cx < u /\ u < bx)
 
 EvalA(u, fu) == /\ pc = "a" /\ ax' = u /\ fa' = fu /\ pc' = "b" /\ UNCHANGED <<bx, cx, fb, fc, tu, tfu>>
 EvalB(u, fu) == /\ pc = "b" /\ u # ax
                 /\ IF fu > fa THEN ax' = u /\ fa' = fu /\ bx' = ax /\ fb' = fa      \* swap: go downhill from a to b
                              ELSE bx' = u /\ fb' = fu /\ UNCHANGED <<ax, fa>>
                 /\ pc' = "c" /\ UNCHANGED <<cx, fc, tu, tfu>>
-EvalC(u, fu) == /\ pc = "c" /\ (u - bx) * (bx - ax) > 0                               \* beyond bx, away from ax
+EvalC(u, fu) == /\ pc = "c" /\ ((bx > ax /\ u > bx) \/ (bx < ax /\ u < bx))               \* beyond bx, away from ax
                 /\ cx' = u /\ fc' = fu /\ pc' = "loop" /\ UNCHANGED <<ax, bx, fa, fb, tu, tfu>>
 Exit == /\ pc = "loop" /\ ~(fb > fc) /\ pc' = "done" /\ UNCHANGED <<ax, bx, cx, fa, fb, fc, tu, tfu>>
 Shift(u, fu) == ax' = bx /\ bx' = cx /\ cx' = u /\ fa' = fb /\ fb' = fc /\ fc' = fu
@@ -54,7 +56,7 @@ Golden(u, fu) == /\ pc = "g1" /\ BeyondC(u) /\ Shift(u, fu) /\ pc' = "loop" /\ U
 OutsideShift(u, fu) == /\ pc = "loop" /\ fb > fc /\ BeyondC(u) /\ Shift(u, fu) /\ pc' = "loop" /\ UNCHANGED <<tu, tfu>>
 OutsideMore(u, fu) == /\ pc = "loop" /\ fb > fc /\ BeyondC(u) /\ fu < fc                 \* second branch, the step was a success
                       /\ tu' = u /\ tfu' = fu /\ pc' = "s2" /\ UNCHANGED <<ax, bx, cx, fa, fb, fc>>
-Extra(u, fu) == /\ pc = "s2" /\ (u - tu) * Dir > 0
+Extra(u, fu) == /\ pc = "s2" /\ Further(u, tu)
                 /\ ax' = cx /\ bx' = tu /\ cx' = u /\ fa' = fc /\ fb' = tfu /\ fc' = fu          \* Shift3(bx,cx,u,..); Shift3(ax,bx,cx,u)
                 /\ pc' = "loop" /\ UNCHANGED <<tu, tfu>>
 Eval(u, fu) == EvalA(u, fu) \/ EvalB(u, fu) \/ EvalC(u, fu) \/ Inside(u, fu) \/ Golden(u, fu) \/ OutsideShift(u, fu) \/ OutsideMore(u, fu) \/ Extra(u, fu)
